@@ -12,6 +12,7 @@ from __future__ import annotations
 import itertools
 from typing import Any
 
+import models.zoo as _Z
 from models.shapes import all_shapes
 from models.zoo import CLASSES, R, build, describe, reset_all
 from vcheck.core import Family, HarnessFailure, Obligation, Spec
@@ -389,6 +390,12 @@ SPECIAL_PAIRS = [
     ("empty-vs-none-string", R("VStr2", {"a": "None", "b": ""}), R("VStr2", {"a": "", "b": "None"})),
     ("frozenset-build-order", R("VRich", {"fs": frozenset([8, 16, 0])}), R("VRich", {"fs": frozenset([16, 8, 0])})),
     ("frozenset-build-order-small", R("VRich", {"fs": frozenset([1, 2])}), R("VRich", {"fs": frozenset([2, 1])})),
+    ("enum-class-differs", R("VRich", {"e": _Z.Color.RED}), R("VRich", {"e": _Z.Shade.RED})),
+    ("enum-member-vs-its-value", R("VRich", {"e": _Z.Color.BLUE}), R("VRich", {"e": 2})),
+    ("enum-member-differs", R("VRich", {"e": _Z.Color.RED}), R("VRich", {"e": _Z.Color.BLUE})),
+    ("bool-vs-int", R("VRich", {"i": True}), R("VRich", {"i": 1})),
+    ("int-vs-float", R("VRich", {"i": 1}), R("VRich", {"i": 1.0})),
+    ("none-vs-string-None", R("VRich", {"n": None}), R("VRich", {"n": "None"})),
     ("separator-strings", R("VStr2", {"a": "1):b=<class 'str'>(2", "b": "3"}), R("VStr2", {"a": "1", "b": "2):b=<class 'str'>(3"})),
 ]
 
